@@ -290,6 +290,22 @@ def run_case(case, ctx):
                                          "per_rank_counts": [len(x) for x in ga]},
                                         mechanism="partition")
                             ctx.sub(("public-list/array", size, ri, ln), nontrivial=(ln > 0 and size > 1))
+            # nested regions: only the outermost region is distributed (reductions happen there only); inside a second region
+            # every rank iterates over the whole range
+            for start, ln in ((0, 7), (3, 5), (0, size), (-2, 2 * size + 1)):
+                for r in range(size):
+                    sim.set_rank(size, r)
+                    with ctx.lib("block_distributed_range in a nested region"):
+                        par.start_parallel_region()
+                        par.start_parallel_region()
+                        it = list(qr.block_distributed_range(start, start + ln))
+                        par.close_parallel_region()
+                        it_outer = list(qr.block_distributed_range(start, start + ln))
+                        par.close_parallel_region()
+                    ctx.require("partition", it == list(range(start, start + ln)), {"helper": "block_distributed_range", "nesting_level": 2, "size": size, "rank": r,
+                                                                                   "start": start, "stop": start + ln, "handed_out": it}, mechanism="partition")
+                    ctx.require("partition", set(it_outer) <= set(range(start, start + ln)), {"helper": "block_distributed_range", "nesting_level": 1, "what": "after the inner region was closed"}, mechanism="partition")
+                ctx.sub(("public-range-nested", size, start, ln), nontrivial=size > 1)
             # histories: the Manager's configuration object is the same for every call of a program
             rng = numpy.random.default_rng(case.get("seed", size) + 7)
             lens = [int(x) for x in rng.integers(0, case["lmax"] + 1, size=4)] + [size, size + 1, 2 * size - 1]
@@ -354,6 +370,21 @@ def run_case(case, ctx):
                                   {"caller": name, "P": P, "rank": r, "N": desc["N"], "scale": scale})
                     ctx.event("collective_calls_resolved", len(sim.known))
                     ctx.sub(("reduce", name, P, desc["N"], tuple(desc["E"])), nontrivial=(P > 1 and desc["N"] > 1))
+                    # the same construction called from inside a region the user has opened (e.g. a loop over disorder realisations):
+                    # the library's own region is then nested, nothing is reduced there, and every rank must hold the serial result
+                    def nested(fn=fn):
+                        par.start_parallel_region()
+                        try:
+                            return fn()
+                        finally:
+                            par.close_parallel_region()
+                    with ctx.lib("Redfield construction inside a user's parallel region"):
+                        outs2 = sim.run(nested, P)
+                    for r, o in enumerate(outs2):
+                        res = float(numpy.max(numpy.abs(o - ref))) if o.shape == ref.shape else float("inf")
+                        ctx.check("reduced==serial", res, 64 * numpy.finfo(float).eps * scale * max(1, desc["N"]),
+                                  {"caller": name, "P": P, "rank": r, "N": desc["N"], "scale": scale, "called_from": "inside a user's parallel region (nested)"})
+                    ctx.sub(("reduce-nested", name, P, desc["N"], tuple(desc["E"])), nontrivial=(P > 1 and desc["N"] > 1))
         finally:
             sim.close()
         ctx.nontrivial(desc["N"] > 1)
